@@ -95,7 +95,7 @@ class C13(Check):
             for struct in structures(gene, 2 if self.tier == "quick" else 3):
                 for planted in minor_plantings(gene, struct):
                     n += 1
-                    if self.tier == "quick" and wk != ("toy",) and n % 3 != self.seed % 3:
+                    if self.tier == "quick" and wk != ("toy",) and n % 5 != self.seed % 5:
                         continue
                     if len(planted) == 3 and n % 4:
                         continue
@@ -372,6 +372,8 @@ E2E = (
     (("custom:e3,down", "15.001"), ("normal", "3.001")),
     (("normal", "16.001"), ("normal", "1.001")),
     (("normal", "2.001"), ("normal", "4.001")),
+    (("normal", "18.001"), ("normal", "1.003")),      # variants on the last and on the first RefSeq base
+    (("normal", "18.001"), ("normal", "18.001"), ("extra", "1.003")),
 )
 
 CHECK = C13
